@@ -182,6 +182,14 @@ struct Block {
 
 }  // namespace vh
 
+// helper for enumerators: write a replayable case file for a failure
+static inline void vh_save_fail_case(const uint8_t *data, size_t n) {
+    if (const char *path = getenv("VH_FAIL")) {
+        FILE *fp = fopen(path, "wb");
+        if (fp) { fwrite(data, 1, n, fp); fclose(fp); }
+    }
+}
+
 // ---------------------------------------------------------------------------
 // Interface every harness TU implements (engines link against it).
 extern "C" {
